@@ -407,6 +407,11 @@ static size_t key_put(uint8_t *k, uint64_t v, int how) {
         varintTaggedPut64FixedWidth(k, v, w);
         return (size_t)w;
     }
+    if (how == 5) { /* the inline pair: length macro + fixed-width macro */
+        varintWidth w = varintTaggedLenQuick(v);
+        varintTaggedPut64FixedWidthQuick_(k, v, w);
+        return (size_t)w;
+    }
     /* how >= 10: counter-style use, the value is reached by a small step:
      * how = 10 + 2*j (+1): start = v + STEP[j] stepped down with AddGrow
      * (even) / start = v - STEP[j] stepped up with AddGrow (odd) */
@@ -474,6 +479,7 @@ static void mode_cmp(size_t shard, size_t nshards, size_t nrandom) {
         cmp_emit_how(&vals[i + 1], &vals[i], 1, 2);
         cmp_emit_how(&vals[i], &vals[i], 1, 3);
         cmp_emit_how(&vals[i], &vals[i], 1, 4);
+        cmp_emit_how(&vals[i], &vals[i], 1, 5);
         /* ... and by counter-style small steps in both directions */
         for (int h = 10; h < 22; h++) {
             cmp_emit_how(&vals[i], &vals[i], 1, h);
